@@ -16,6 +16,10 @@ type SendSite struct {
 	Val    ssa.Value
 	Select *ssa.Select // nil for a plain (unconditional, blocking) send
 	Index  int         // state index inside the select
+	// Via is set when the send happens inside a local closure or a same-package helper the rules have never
+	// seen: Instr is then the CALL in the analysed function, Val the call's argument that is sent, and
+	// Chan/Select belong to the callee's body.
+	Via *ssa.Function
 }
 
 // RecvSite is one channel receive.
@@ -27,8 +31,81 @@ type RecvSite struct {
 	CommaOk bool
 }
 
-// Sends lists all sends in fn (not descending into closures).
+// sendCallee returns the function whose body stands for the call: a closure defined in the caller and called
+// directly, or a same-package helper that is not on the reference list (known_funcs.txt).
+func sendCallee(call *ssa.Call) *ssa.Function {
+	if mc, ok := call.Call.Value.(*ssa.MakeClosure); ok {
+		if f, ok := mc.Fn.(*ssa.Function); ok {
+			return f
+		}
+	}
+	// a closure kept in a local variable
+	if !call.Call.IsInvoke() {
+		if _, isFn := call.Call.Value.(*ssa.Function); !isFn {
+			for _, src := range Sources(call.Call.Value) {
+				if mc, ok := src.(*ssa.MakeClosure); ok {
+					if f, ok := mc.Fn.(*ssa.Function); ok {
+						return f
+					}
+				}
+			}
+		}
+	}
+	if h := call.Call.StaticCallee(); h != nil && len(h.Blocks) > 0 && call.Parent() != nil && h.Package() == call.Parent().Package() && h.Parent() == nil && !KnownFunc(FuncQName(h)) {
+		return h
+	}
+	return nil
+}
+
+// IsSendSite reports whether the instruction sends on a channel: a Send, a Select with a send case, or a call
+// that stands for one (see SendSite.Via).
+func IsSendSite(in ssa.Instruction) bool {
+	switch x := in.(type) {
+	case *ssa.Send:
+		return true
+	case *ssa.Select:
+		for _, st := range x.States {
+			if st.Dir == types.SendOnly {
+				return true
+			}
+		}
+	case *ssa.Call:
+		if f := sendCallee(x); f != nil {
+			return len(directSends(f)) > 0
+		}
+	}
+	return false
+}
+
+// Sends lists all sends in fn: its own, and those made on its behalf by local closures it calls or by
+// helpers the rules have never seen (one level).
 func Sends(fn *ssa.Function) []SendSite {
+	out := directSends(fn)
+	Instrs(fn, func(in ssa.Instruction) {
+		call, ok := in.(*ssa.Call)
+		if !ok {
+			return
+		}
+		f := sendCallee(call)
+		if f == nil || f == fn {
+			return
+		}
+		for _, inner := range directSends(f) {
+			site := SendSite{Instr: call, Chan: inner.Chan, Select: inner.Select, Index: inner.Index, Via: f, Val: inner.Val}
+			for _, src := range Sources(inner.Val) {
+				for pi, p := range f.Params {
+					if src == ssa.Value(p) && pi < len(call.Call.Args) {
+						site.Val = call.Call.Args[pi]
+					}
+				}
+			}
+			out = append(out, site)
+		}
+	})
+	return out
+}
+
+func directSends(fn *ssa.Function) []SendSite {
 	var out []SendSite
 	Instrs(fn, func(in ssa.Instruction) {
 		switch x := in.(type) {
